@@ -63,7 +63,12 @@ def canonicalize_url(
 
     # Path normalization
     else:
+        # NOTE: normpath drops the trailing slash, which is significant
+        trailing_slash = path.endswith(("/", "/.", "/.."))
         path = normpath(path)
+
+        if trailing_slash and path:
+            path += "/"
 
     # Quotes
     if user:
